@@ -214,10 +214,10 @@ def contract(qual, with_role, noraise=()):
         ok = True
         for e in st.trace:
             if e.name in ("save", "record_error") and e.args:
-                ok = ok and is_z3(e.args[0]) and "attr.cache_dir" in e.args[0].sexpr()
+                ok = ok and is_z3(e.args[0]) and "attr.cache_dir" in str(e.args[0])
             if e.name == "os.chdir" and e.args and not e.raised:
                 a = e.args[0]
-                ok = ok and is_z3(a) and ("attr.cache_dir" in a.sexpr() or "ret.os.getcwd" in a.sexpr())
+                ok = ok and is_z3(a) and ("attr.cache_dir" in str(a) or "ret.os.getcwd" in str(a))
             if e.name.endswith(".unlink"):
                 ok = ok and "self.cache_root" in e.label
         return ok
